@@ -30,6 +30,9 @@ import (
 //             done3   - like sleep; 300 ms after reaching DONE it exits 3 (crash in its shutdown path)
 //             donesig - like sleep; 300 ms after reaching DONE it dies by a signal (SIGKILL to itself)
 //             nodone  - refuses EXIT (never reaches DONE); exits 3 when told to terminate
+//             fmq      - a FairMQ device (control mode FAIRMQ: FairMQ state and event names), otherwise like sleep
+//             midstate - a FairMQ device that, once the executor has seen it IDLE, sits in an intermediate
+//                        FairMQ state ("BINDING") for ever and refuses every transition; obeys TERM/INT
 
 type occLog struct {
 	mu sync.Mutex
@@ -54,6 +57,19 @@ type occServer struct {
 	leave    chan int // exit code to leave with (-1: die by a signal)
 }
 
+var fmqTransitions = map[string][2]string{ // event -> (src, dst), FairMQ state machine
+	"INIT DEVICE":   {"IDLE", "INITIALIZING DEVICE"},
+	"COMPLETE INIT": {"INITIALIZING DEVICE", "INITIALIZED"},
+	"BIND":          {"INITIALIZED", "BOUND"},
+	"CONNECT":       {"BOUND", "DEVICE READY"},
+	"INIT TASK":     {"DEVICE READY", "READY"},
+	"RUN":           {"READY", "RUNNING"},
+	"STOP":          {"RUNNING", "READY"},
+	"RESET TASK":    {"READY", "DEVICE READY"},
+	"RESET DEVICE":  {"DEVICE READY", "IDLE"},
+	"END":           {"IDLE", "EXITING"},
+}
+
 var occTransitions = map[string][2]string{ // event -> (src, dst), control mode DIRECT
 	"CONFIGURE": {"STANDBY", "CONFIGURED"},
 	"START":     {"CONFIGURED", "RUNNING"},
@@ -76,13 +92,16 @@ func (s *occServer) Transition(ctx context.Context, r *pb.TransitionRequest) (*p
 	s.mu.Lock()
 	defer s.mu.Unlock()
 	t, known := occTransitions[r.GetTransitionEvent()]
-	ok := known && (t[0] == "" || t[0] == s.state) && s.state != "INITIALIZING"
+	if s.beh == "fmq" || s.beh == "midstate" {
+		t, known = fmqTransitions[r.GetTransitionEvent()]
+	}
+	ok := known && (t[0] == "" || t[0] == s.state) && s.state != "INITIALIZING" && s.state != "BINDING"
 	if s.beh == "nodone" && r.GetTransitionEvent() == "EXIT" {
 		ok = false
 	}
 	if ok {
 		s.state = t[1]
-		if s.state == "DONE" { // what the device does once it is DONE
+		if s.state == "DONE" || s.state == "EXITING" { // what the device does once it is DONE
 			switch s.beh {
 			case "done0":
 				time.AfterFunc(5*time.Millisecond, func() { s.leave <- 0 })
@@ -98,6 +117,11 @@ func (s *occServer) Transition(ctx context.Context, r *pb.TransitionRequest) (*p
 }
 
 func (s *occServer) EventStream(_ *pb.EventStreamRequest, srv pb.Occ_EventStreamServer) error {
+	if s.beh == "midstate" { // the executor has seen IDLE and is about to report TASK_RUNNING
+		s.mu.Lock()
+		s.state = "BINDING"
+		s.mu.Unlock()
+	}
 	select {
 	case <-srv.Context().Done():
 	case <-s.stopping:
@@ -127,6 +151,9 @@ func runFakeOcc(port int, logPath, beh, fifo string) int {
 	srv := &occServer{state: "STANDBY", log: lg, stopping: make(chan struct{}), beh: beh, leave: make(chan int, 4)}
 	if beh == "stuck" {
 		srv.state = "INITIALIZING"
+	}
+	if beh == "fmq" || beh == "midstate" {
+		srv.state = "IDLE"
 	}
 	lis, err := net.Listen("tcp", fmt.Sprintf("127.0.0.1:%d", port))
 	if err != nil {
